@@ -23,6 +23,7 @@ type recNIC struct {
 	got  []recDep
 	seen int
 	hook func()
+	onID func(id int)
 }
 
 type recDep struct {
@@ -38,8 +39,8 @@ func newRecNIC() *recNIC {
 }
 
 func (n *recNIC) getInterface(string) (*transport.Interface, error) { return nil, errNoInterface }
-func (n *recNIC) getStaticIPs() []net.IP                             { return nil }
-func (n *recNIC) setRouter(*Router) error                            { return nil }
+func (n *recNIC) getStaticIPs() []net.IP                            { return nil }
+func (n *recNIC) setRouter(*Router) error                           { return nil }
 func (n *recNIC) onInboundChunk(c Chunk) {
 	n.mu.Lock()
 	id, ok := n.ids[c]
@@ -50,10 +51,13 @@ func (n *recNIC) onInboundChunk(c Chunk) {
 	d.intact = ok && string(c.UserData()) == string(n.want[id])
 	n.got = append(n.got, d)
 	n.seen++
-	h := n.hook
+	h, g := n.hook, n.onID
 	n.mu.Unlock()
 	if h != nil {
 		h()
+	}
+	if g != nil {
+		g(id)
 	}
 }
 
@@ -97,7 +101,7 @@ func TestVerifLoss(t *testing.T) {
 		for c := -2; c <= 103; c++ {
 			chances = append(chances, c)
 		}
-		chances = append(chances, 150, 175, 250, 1000, 1 << 20)
+		chances = append(chances, 150, 175, 250, 1000, 1<<20)
 	}
 	for _, ch := range chances {
 		rec := newRecNIC()
@@ -124,55 +128,100 @@ func TestVerifLoss(t *testing.T) {
 	t.Logf("events=%d", tr.N)
 }
 
-// ---------------------------------------------------------------- C15
-
-func tbfKept(f *TokenBucketFilter, c Chunk) bool {
-	f.queue.mutex.RLock()
-	defer f.queue.mutex.RUnlock()
-	for _, x := range f.queue.chunks {
-		if x == c {
-			return true
+// TestVerifLossReentrant: the next NIC reacts to a datagram by handing further datagrams to the
+// filter from within the call (a responder directly behind the filter).
+func TestVerifLossReentrant(t *testing.T) {
+	tr := vrt.Open()
+	defer tr.Close()
+	rng := rand.New(rand.NewSource(vrt.Seed())) //nolint:gosec
+	runs := vrt.EnvInt("VERIF_RUNS", 150)
+	for _, ch := range []int{0, -3, 100, 130, 20, 50} {
+		rec := newRecNIC()
+		f, err := NewLossFilter(rec, ch)
+		if err != nil {
+			t.Fatal(err)
 		}
+		tr.Emit(vrt.M{"ev": "reset", "chance": ch})
+		next := 0
+		for r := 0; r < runs; r++ {
+			budget := 2 + rng.Intn(12)
+			arrs := []int{}
+			push := func(id int) {
+				arrs = append(arrs, id)
+				f.onInboundChunk(rec.mk(rng, id, rng.Intn(60)))
+			}
+			rec.onID = func(int) {
+				for k := rng.Intn(4); k > 0 && budget > 0; k-- {
+					budget--
+					next++
+					push(next)
+				}
+			}
+			next++
+			push(next)
+			out := []int{}
+			intact := true
+			for _, d := range rec.take() {
+				out = append(out, d.id)
+				intact = intact && d.intact
+			}
+			tr.Emit(vrt.M{"ev": "batch", "arrs": arrs, "out": out, "intact": intact})
+			rec.ids = map[Chunk]int{}
+			rec.want = map[int][]byte{}
+		}
+		tr.Emit(vrt.M{"ev": "end"})
 	}
-
-	return false
+	t.Logf("events=%d", tr.N)
 }
 
+// ---------------------------------------------------------------- C15
+
+// tbfRun records one history. Whether an arriving datagram was kept is not observable at the time
+// (the queue is private): the run ends by raising rate and burst until everything queued has left,
+// and a datagram counts as kept exactly if it was forwarded by then. The events are written out
+// at the end, with that field filled in.
 type tbfRun struct {
 	tr  *vrt.Tracer
 	rec *recNIC
 	f   *TokenBucketFilter
 	rng *rand.Rand
 	id  int
+	evs []vrt.M
+	out map[int]bool
 }
+
+func (r *tbfRun) emit(m vrt.M) { r.evs = append(r.evs, m) }
 
 func (r *tbfRun) deps() bool {
 	any := false
 	for _, d := range r.rec.take() {
-		r.tr.Emit(vrt.M{"ev": "dep", "id": d.id, "len": d.n, "t": d.ms, "intact": d.intact})
+		r.emit(vrt.M{"ev": "dep", "id": d.id, "len": d.n, "t": d.ms, "intact": d.intact})
+		r.out[d.id] = true
 		any = true
 	}
 
 	return any
 }
 
-func (r *tbfRun) arrive(size int) {
+func (r *tbfRun) flush() {
+	for _, m := range r.evs {
+		if m["ev"] == "arr" {
+			m["kept"] = r.out[m["id"].(int)] //nolint:forcetypeassert
+		}
+		r.tr.Emit(m)
+	}
+	r.evs = nil
+}
+
+func (r *tbfRun) arrive(size int) bool {
 	r.id++
 	c := r.rec.mk(r.rng, r.id, size)
 	t := r.rec.nowMS()
 	r.f.onInboundChunk(c)
 	synctest.Wait()
-	got := r.rec.take()
-	departed := false
-	for _, d := range got {
-		if d.id == r.id {
-			departed = true
-		}
-	}
-	r.tr.Emit(vrt.M{"ev": "arr", "id": r.id, "len": size, "t": t, "kept": departed || tbfKept(r.f, c)})
-	for _, d := range got {
-		r.tr.Emit(vrt.M{"ev": "dep", "id": d.id, "len": d.n, "t": d.ms, "intact": d.intact})
-	}
+	r.emit(vrt.M{"ev": "arr", "id": r.id, "len": size, "t": t, "kept": false})
+
+	return r.deps()
 }
 
 // TestVerifTBF drives the real TokenBucketFilter in virtual time with seeded arrival plans.
@@ -197,8 +246,8 @@ func TestVerifTBF(t *testing.T) { //nolint:cyclop,gocognit
 				t.Fatal(err)
 			}
 			synctest.Wait()
-			r := &tbfRun{tr: tr, rec: rec, f: f, rng: rng}
-			tr.Emit(vrt.M{"ev": "reset", "rate": rate, "burst": burst, "qcap": qcap})
+			r := &tbfRun{tr: tr, rec: rec, f: f, rng: rng, out: map[int]bool{}}
+			r.emit(vrt.M{"ev": "reset", "rate": rate, "burst": burst, "qcap": qcap})
 			changes := rng.Intn(3) == 0
 			for i := 0; i < ops; i++ {
 				g := gaps[rng.Intn(len(gaps))]
@@ -209,11 +258,11 @@ func TestVerifTBF(t *testing.T) { //nolint:cyclop,gocognit
 					if rng.Intn(2) == 0 {
 						rate = rates[rng.Intn(len(rates))]
 						f.Set(TBFRate(rate * 8000))
-						tr.Emit(vrt.M{"ev": "rate", "v": rate, "t": rec.nowMS()})
+						r.emit(vrt.M{"ev": "rate", "v": rate, "t": rec.nowMS()})
 					} else {
 						burst = bursts[rng.Intn(len(bursts))]
 						f.Set(TBFMaxBurst(burst))
-						tr.Emit(vrt.M{"ev": "burst", "v": burst, "t": rec.nowMS()})
+						r.emit(vrt.M{"ev": "burst", "v": burst, "t": rec.nowMS()})
 					}
 
 					continue
@@ -248,8 +297,20 @@ func TestVerifTBF(t *testing.T) { //nolint:cyclop,gocognit
 					r.arrive(size)
 				}
 			}
+			// let everything that is queued leave
+			f.Set(TBFRate(12500 * 8000))
+			r.emit(vrt.M{"ev": "rate", "v": 12500, "t": rec.nowMS()})
+			f.Set(TBFMaxBurst(500000000))
+			r.emit(vrt.M{"ev": "burst", "v": 500000000, "t": rec.nowMS()})
+			for i := 0; i < 12; i++ {
+				time.Sleep(20 * time.Second)
+				if !r.arrive(0) && i > 0 {
+					break
+				}
+			}
 			_ = f.Close()
 			r.deps()
+			r.flush()
 		})
 	}
 	t.Logf("events=%d", tr.N)
